@@ -11,6 +11,12 @@ from .common import allowed_stores, instance_state
 PCX = 'config.ParseContext'
 
 
+def en_nodes_region(g, en, n):
+  """`n` if it shares its guard with one of the enabling nodes (same statement list), else nothing."""
+  par = getattr(n.ast, 'parent', None)
+  return [n] if any(getattr(e.ast, 'parent', None) is par for e in en) else []
+
+
 def run(ctx):
   prog = ctx.prog
   c = ctx.cls(PCX)
@@ -134,7 +140,12 @@ def run(ctx):
             'C19.guards', construct(pi), 'an aliased __gin__ import is rejected', 'aliased __gin__ imports are no longer rejected', pi.loc(), instance='aliased-enable')
   ctx.check(has(lambda cs: ('self._imports', True) in cs and ("feature == 'dynamic_registration'", True) in cs),
             'C19.guards', construct(pi), 'enabling dynamic registration after another import is rejected', 'a late enabling statement is no longer rejected', pi.loc(), instance='late-enable')
-  en = [n for n in g3.live_nodes() if any(prog.resolve_call(pi, cc) == PCX + '._enable_dynamic_registration' for cc in calls_of_node(n))]
+  def switches_on(fn_node):
+    return any(isinstance(a, ast.Assign) and any(u(t) == 'self._dynamic_registration' for t in a.targets) and u(a.value) == 'True'
+               for a in walk_local(fn_node))
+  enablers = {m_.qual for m_ in c.methods.values() if m_ is not pi and switches_on(m_.node)}
+  en = [n for n in g3.live_nodes() if any(prog.resolve_call(pi, cc) in enablers for cc in calls_of_node(n)) or
+        (n.kind == 'stmt' and isinstance(n.ast, ast.Assign) and any(u(t) == 'self._dynamic_registration' for t in n.ast.targets) and u(n.ast.value) == 'True')]
   def atom_pi(e):
     t = u(e)
     if t == 'self._imports':
@@ -184,6 +195,8 @@ def run(ctx):
             'which module object an import statement binds changed: %s -- a selector written against the statement then resolves to another object' % whyb,
             pi.loc(imps[0]), instance='bound-module')
   tw = [n for n in g3.live_nodes() if n.kind == 'stmt' and isinstance(n.ast, ast.Assign) and u(n.ast.targets[0]).startswith('self._symbol_table[')]
+  # the enabling branch itself installs the builtins under `gin` (in the reference tree, in the helper it calls)
+  tw = [n for n in tw if not (u(n.ast.targets[0]) == "self._symbol_table['gin']" and u(n.ast.value) == '_GinBuiltins()' and n in en_nodes_region(g3, en, n))]
   ok = bool(tw) and all(("name == 'gin'", False) in {(f[1], f[2]) for f in facts3[n.id] if f[0] == 'c'} and
                         (def_of(facts3[n.id], 'name') or '') == 'statement.bound_name()' and u(n.ast.targets[0]) == 'self._symbol_table[name]' for n in tw)
   ctx.check(ok, 'C19.guards', construct(pi), 'the symbol table is written under the statement\'s bound name, never under the reserved name gin',
@@ -212,6 +225,13 @@ def run(ctx):
   ctx.check(ok and cond, 'C19.exact-object', construct(rg), 're-registering a class re-initialises the existing references to it',
             'existing references are no longer re-initialised when a class is re-registered', rg.loc(), instance='reinitialise')
   rec = [cc for cc in walk_local(rg.node) if isinstance(cc, ast.Call) and prog.resolve_call(rg, cc) == rg.qual]
+  if not rec and mk:
+    # iterative form: the registration sits in a loop that goes round again with both chains shortened by their last element
+    for lp in [n for n in walk_local(rg.node) if isinstance(n, ast.While) and in_subtree(mk[0], n)]:
+      cut = {u(a.targets[0]) for a in walk_local(lp) if isinstance(a, ast.Assign) and len(a.targets) == 1 and isinstance(a.targets[0], ast.Name)
+             and u(a.value) == '%s[:-1]' % u(a.targets[0])}
+      if set(rg.params[1:3]) <= cut:
+        rec = [lp]
   ctx.check(bool(rec), 'C19.exact-object', construct(rg), 'registering a method registers its class too', 'the parent class of a method is no longer registered', rg.loc(), instance='parent-class')
 
   import_aliases(ctx, 'C19.unique-names')
